@@ -144,10 +144,15 @@ def specFlags (st : Index) (ix : List Def) (f : Path) (n : String) : List String
     | some { parsed := some fr, .. } =>
       fr.imports.any (fun imp => !imp.isStar && imp.orig.contains n && imp.names != imp.orig)
     | _ => false)
+  let badConf := (ancestorsOfDir (dirOf f)).any (fun dir =>
+    match st.content (conftestOf dir) with
+    | some { parsed := none, .. } => true
+    | _ => false)
   let multiThird := ((defsOf ix n).filter (·.thirdParty)).length ≥ 2
   let multiPlugin := ((defsOf ix n).filter (fun d => d.plugin && !d.thirdParty)).length ≥ 2
   (if impFirst then ["imp-first"] else []) ++ (if alias then ["alias"] else []) ++
-    (if multiThird then ["multi-third"] else []) ++ (if multiPlugin then ["multi-plugin"] else [])
+    (if multiThird then ["multi-third"] else []) ++ (if multiPlugin then ["multi-plugin"] else []) ++
+    (if badConf then ["unparsable-conftest"] else [])
 
 def flagStr (fl : List String) : String := if fl.isEmpty then "" else " FLAGS=" ++ ",".intercalate fl
 
@@ -168,9 +173,13 @@ def specGoto (st : Index) (f : Path) (line0 col : Nat) : String :=
 
 def cycleFlags (st : Index) : List String :=
   let names := namesOf st.defs
+  let stale := match st.cycleCache with
+    | some (ver, _) => ver == st.version && st.cycleEpoch != st.epoch
+    | none => false
   let multi := names.any (fun n => (defsOf st.defs n).length ≥ 2)
   let alts := ((st.cyclesAlternatives).1.map (fun cy => sorted (cy.map (fun c => ">".intercalate c.path)))).eraseDups
-  (if multi then ["multi-def-name"] else []) ++ (if alts.length > 1 then ["root-order"] else [])
+  (if multi then ["multi-def-name"] else []) ++ (if alts.length > 1 then ["root-order"] else []) ++
+    (if stale then ["stale-version-key"] else [])
 
 def cycleStr (c : Cycle) : String := s!"{">".intercalate c.path}@{defShort c.fixture}"
 
@@ -253,7 +262,10 @@ def runSpec (c : CaseSt) (t : List String) : Option String :=
   | ["avail", p] =>
     let f := pathOf p
     let names := sortStrs (namesOf st.defs)
-    some (";".intercalate (names.filterMap (fun n =>
+    let stale := match alookup st.availCache f, alookup st.availEpoch f with
+      | some (ver, _), some ep => ver == st.version && ep != st.epoch
+      | _, _ => false
+    some ((if stale then "CACHE FLAGS=stale-version-key;" else "") ++ ";".intercalate (names.filterMap (fun n =>
       let acc := specAcceptable st st.defs f n
       let dupSame := ((defsOf st.defs n).filter (·.file == f)).length ≥ 2
       let uncached := (ancestorsOfDir (dirOf f)).any (fun dir =>
